@@ -30,6 +30,7 @@ pub fn gen_world(rng: &mut Rng, n_templates: usize, n_datas: usize, stateful: bo
     let absent = if rng.chance(1, 4) { 4 } else { 0 };
     let partials = gen::gen_partials(rng, &cfg, corrupt, absent, 4);
     cfg.partials = partials.names().iter().map(|n| gen::invocation_name(n)).collect();
+    cfg.stored = partials.names();
     cfg.absent = partials.absent.clone();
     let mut templates: Vec<Vec<gen::Node>> = vec![];
     for _ in 0..n_templates {
